@@ -203,7 +203,7 @@ fn gen_nano(c: &mut Ctx) -> u32 {
         5 => (c.rng.below(1_000_000) * 1000 + c.rng.below(2) * 999) as u32,
         6 => (c.rng.below(10) * 100_000_000) as u32,
         7 => (c.rng.below(100)) as u32,
-        _ => c.rng.below(1_000_000_000) as u32,
+        _ => c.rng.nanos(),
     }
 }
 
